@@ -81,8 +81,9 @@ func TestVerifC01Chain(t *testing.T) {
 		restarter.Name, restarter.Observer, restarter.Zone = "restarter", true, zones[2]
 		detour := w.NewReplica(w.God, dbm.NewMemDB())
 		detour.Name, detour.Observer, detour.Zone = "detour", true, zones[0]
-		if err := w.Prologue(); err != nil {
-			t.Fatal(err)
+		if !startScenario(w, rep, true) {
+			w.Cleanup()
+			continue
 		}
 		s := NewScenario(w, verifutil.NewRng(seed, 1))
 		s.Hostile, s.MaxTxs = 15, 6
@@ -103,11 +104,15 @@ func TestVerifC01Chain(t *testing.T) {
 			}
 			w.beforeDistribute = func(b *types.Block, p *Replica) {
 				// map-order / schedule diversity: K re-executions on the proposer and on another replica
-				revalidate(rep, p, b, K, orders)
+				n := 0
+				if p != nil {
+					revalidate(rep, p, b, K, orders)
+					n++
+				}
 				for _, r := range w.Replicas {
-					if r != p && r.Alive {
+					if r != p && r.Alive && n < 2 {
 						revalidate(rep, r, b, K, orders)
-						break
+						n++
 					}
 				}
 			}
